@@ -102,6 +102,13 @@ func c12Menu() []Stream {
 	if len(out) != 6 {
 		panic("C12: liblzma-written stream not found in the corpus")
 	}
+	// a stream without any block (what liblzma writes for empty input; the library's own writer
+	// always emits one empty block): the footer directly follows an index with zero records
+	add("ref-noblocks-crc32", ref.EncodeXZStream(ref.CheckCRC32, nil), nil)
+	// a stream declaring a 64 KiB dictionary that uses a match 5000 bytes back, next to the 4 KiB
+	// streams above: anything a reader keeps from one stream or block to the next must fit both
+	far := append(append([]byte(nil), randBytes(12, 5000)...), randBytes(12, 300)...)
+	add("lib-dict64k-dist5000", mustLibXZ(XZCfg{DictCap: 65536, Check: 1}, far), far)
 	return out
 }
 
@@ -252,7 +259,7 @@ func c12Case(r *core.Run, menu []Stream, p C12Case) {
 
 func runC12(r *core.Run) {
 	menu := c12Menu()
-	r.Rule = "all lists of 1..3 streams over a menu of 6 (library-, reference- and liblzma-written; empty; 4 check types; multi-block) x 4 source modes (bytes.Reader / last bytes with io.EOF / one byte per Read / both) x padding: lists <=2: every length 0..16 between and after; lists of 3: {0,4,8} plus one misaligned; leading padding 1..8; trailing non-zero bytes (lengths 1..11); a non-zero byte at every position of a 4/8/12-byte padding group; x SingleStream on/off; oracle = 20-line reference semantics. states/transitions = stream-list automaton (start/between/error/done); non-trivial = distinct (layout class, outcome class, bytes, expectation)"
+	r.Rule = "all lists of 1..3 streams over a menu of 8 (library-, reference- and liblzma-written; empty with one empty block and without any block; 4 check types; multi-block; 4 KiB and 64 KiB dictionaries with a far match) x 4 source modes (bytes.Reader / last bytes with io.EOF / one byte per Read / both) x padding: lists <=2: every length 0..16 between and after; lists of 3: {0,4,8} plus one misaligned; leading padding 1..8; trailing non-zero bytes (lengths 1..11); a non-zero byte at every position of a 4/8/12-byte padding group; x SingleStream on/off; oracle = 20-line reference semantics. states/transitions = stream-list automaton (start/between/error/done); non-trivial = distinct (layout class, outcome class, bytes, expectation)"
 	var cases []C12Case
 	n := len(menu)
 	maxPad := 16
